@@ -531,6 +531,9 @@ func init() {
 		checkPanicReach(p, r, reach)
 		checkNilContract(p, r, reach)
 		r.Engines = []string{"panicreach", "nilcontract"}
+		r.Explanation = "On everything reachable from the read API and NewReader: (a) every explicit panic, log.Panic/Fatal and unchecked type assertion is matched against a frozen allow-table of sites that only API misuse can reach (two entries are re-verified structurally on every run); (b) every function result that may be nil together with a nil error is nil-checked (dominating branch) before it is dereferenced, used as a receiver, wrapped in an interface or stored."
+		r.NotDecided = []string{"termination on hostile index cycles", "bounds of index and slice expressions in the byte decoders (see DESIGN: bounds engine)"}
+		r.Assumptions = []string{"allow-table entries marked trusted are reachable only through API misuse"}
 		r.Stats["reachable_functions"] = len(reach)
 	}
 }
